@@ -45,4 +45,4 @@ EXPLORE = {'sim': (sim_cases(), execute_sim), 'real': (rp.c07_cases(), rp.execut
 def run(ctx):
     ctx.explore('sim', sim_cases(), execute_sim, n=ctx.pick(250, 25000))
     ctx.explore('real', rp.c07_cases(), rp.execute_c07, n=ctx.pick(4, 60),
-                shrink_budget=6)
+                shrink_budget=6, reexecute_confirm=2)
